@@ -369,7 +369,7 @@ fn more_family<
             format!("map_conc:{}:{}", path, m),
             &["C17"],
             mode,
-            2,
+            1,
             "R{g = Map.load; deref; deref; drop; load; deref} || W{store, store}",
             move || h_more::map_conc::<S>(fill),
         ));
@@ -510,7 +510,7 @@ fn more_family<
                 Fresh,
                 3,
                 "T0{load, exit} done; X{first use: load, drop} || Y{first use: load, drop} || W{store}",
-                move || h_more::churn_two::<S>(false),
+                move || h_more::churn_two::<S>(false, false),
             );
             // three first uses of the crate make long executions: one more stale read in the
             // thorough tier instead of one more preemption
@@ -522,11 +522,21 @@ fn more_family<
                 Fresh,
                 3,
                 "T0{load, exit} done; X{first use: rcu} || Y{first use: rcu} || W{rcu}",
-                move || h_more::churn_two::<S>(true),
+                move || h_more::churn_two::<S>(true, false),
             );
             // three rcu loops with weak exchanges: spurious failures are enumerated elsewhere
             x.bounds_quick = Some((2, 1, 0));
             x.bounds_thorough = Some((2, 2, 0));
+            out.push(x);
+            let mut x = inst(
+                format!("churn_two_map:{}", path),
+                &["C17"],
+                Fresh,
+                3,
+                "T0{load, exit} done; X{first use: Map.load, deref, deref, drop} || Y{the same} || W{store}",
+                move || h_more::churn_two::<S>(false, true),
+            );
+            x.bounds_thorough = Some((2, 2, 1));
             out.push(x);
         }
         for ww in [false, true] {
